@@ -130,7 +130,7 @@ def gen_case(rng, variant=None):
                 if isinstance(kd, dict):
                     peek(kd)
         peek(spec["tree"])
-    return {"kind": "gen", "variant": v, "spec": spec}
+    return {"kind": "gen", "variant": v, "spec": spec, "read_order": rng.randint(0, 10 ** 6) if rng.random() < 0.7 else None}
 
 
 # ------------------------------------------------------------------------------------------------ real run
@@ -165,10 +165,17 @@ def execute(bt, case):
     return {"b": b, "data": data, "add": add, "log": [t for t in log if t["paper"] == top]}
 
 
-def real_reports(bt, b):
-    """every report through the public API; a report that raises is recorded under 'raised'"""
+def real_reports(bt, b, order=None):
+    """every report through the public API; a report that raises is recorded under 'raised'.  `order`: the reports are read in a
+    shuffled order (a report must not depend on which other report was read before it - some getters refresh idle nodes)"""
     out = {"raised": {}}
     res = None
+    first = [("weights", lambda: b.weights), ("security_weights", lambda: b.security_weights), ("positions", lambda: b.positions),
+             ("outlays", lambda: b.strategy.outlays), ("herfindahl_index", lambda: b.herfindahl_index), ("turnover", lambda: b.turnover),
+             ("strategy_prices", lambda: b.strategy.prices), ("stats_prices", lambda: b.stats.prices)]
+    if order is not None:
+        import random as _r
+        _r.Random(order).shuffle(first)
 
     def call(name, f):
         try:
@@ -176,14 +183,8 @@ def real_reports(bt, b):
         except Exception as e:  # noqa
             out["raised"][name] = "%s: %s" % (type(e).__name__, str(e)[:120])
 
-    call("weights", lambda: b.weights)
-    call("security_weights", lambda: b.security_weights)
-    call("positions", lambda: b.positions)
-    call("outlays", lambda: b.strategy.outlays)
-    call("herfindahl_index", lambda: b.herfindahl_index)
-    call("turnover", lambda: b.turnover)
-    call("strategy_prices", lambda: b.strategy.prices)
-    call("stats_prices", lambda: b.stats.prices)
+    for nm_, f_ in first:
+        call(nm_, f_)
     call("Result", lambda: bt.backtest.Result(b))
     res = out.get("Result")
     if res is not None:
@@ -898,7 +899,7 @@ def judge(ctx, bt, cases, corr="report", do_replay=True):
             continue
         ctx.count("program-completed")
         b = run["b"]
-        rep = real_reports(bt, b)
+        rep = real_reports(bt, b, case.get("read_order"))
         h = histories(bt, b)
         rd = {"case": case}
         for nm, msg in rep["raised"].items():
